@@ -1,6 +1,6 @@
 #!/bin/bash
 # usage: tools/runall.sh [tier] [ids...]  – runs the registered checks one after another, prints one line each
-cd /verif
+cd "$(dirname "$0")/.."
 TIER="${1:-quick}"; shift
 IDS="$@"; [ -z "$IDS" ] && IDS=$(python3 -c "import json; print(' '.join(c['property_id'] for c in json.load(open('MANIFEST.json'))['checks']))")
 for id in $IDS; do
